@@ -157,6 +157,7 @@ func Explore(run *harness.Run, o Options) {
 		explore(r, base, 0, "")
 		if o.Prop == "C07" || o.Prop == "C02" {
 			ResyncScenario(run, key, r, c, o.Prop)
+			RerunScenario(run, key, r, c, o.Prop)
 		}
 	})
 }
